@@ -566,3 +566,17 @@ class OrtWorker:
             except Exception:  # noqa: BLE001
                 pass
             self.proc = None
+
+
+def subgraph_lists_value_twice(function_proto):
+    """Some nested graph (branch or loop body) has the same value name twice among its outputs."""
+    def has(nodes):
+        for n in nodes:
+            for a in n.attribute:
+                gs = [a.g] if a.type == a.GRAPH else list(a.graphs)
+                for g in gs:
+                    outs = [o.name for o in g.output]
+                    if len(outs) != len(set(outs)) or has(g.node):
+                        return True
+        return False
+    return has(function_proto.node)
